@@ -27,8 +27,8 @@ for d in sorted(os.listdir(os.path.join(VERIF, 'seeded'))):
     notes = open(os.path.join(sd, 'notes.md')).read()
     ok = rc_clean == 0 and rc_seeded not in (0,) and '62 passed' in tail
     meta = {
-        'property': d, 'title': props[d]['title'],
-        'breaks': f'{d}: {props[d]["title"]}',
+        'property': d[:3], 'title': props[d[:3]]['title'],
+        'breaks': f'{d[:3]}: {props[d[:3]]["title"]}',
         'origin': 'written by a fresh sub-agent that saw only the property text and its own scratch worktree of /repo (nothing from /verif)',
         'needs_to_manifest': ' '.join(notes.split())[:900],
         'confirmed': {
